@@ -156,6 +156,12 @@ EncodeClauses(e) ==
         ELSE {}
    ELSE {})
 
+(* the lengths of the top-level length-prefixed fields of a message *)
+PrefLens(T, v) ==
+  LET fs == FieldsOf(T)
+      idx == {i \in 1..Len(fs) : fs[i].kind \in {"str", "list", "objlist"}}
+  IN [i \in idx |-> Len(v[fs[i].name])]
+
 DecodeClauses(e) ==
   LET b == e.b
       pre == UB(b)
@@ -186,8 +192,10 @@ DecodeClauses(e) ==
    ELSE {})
   \cup
   (* C18: at and below the prefix limit the value round-trips (self-referential, as C01) *)
+  (* (judged on what C18 is about: the message decodes and every prefixed field comes back with *)
+  (* the number of bytes / elements that was encoded; other differences are C01's)            *)
   (IF P("C18") /\ hd.t = T /\ Canonical(T, hd.v)
-   THEN IF e.res = "ok" /\ e.vpost = hd.vp THEN {} ELSE {<<"C18.at-limit-roundtrip", "none">>}
+   THEN IF e.res = "ok" /\ PrefLens(T, e.vpost) = PrefLens(T, hd.vp) THEN {} ELSE {<<"C18.at-limit-roundtrip", "none">>}
    ELSE {})
   \cup
   (* C09: a message or an error *)
